@@ -27,11 +27,19 @@ def _init():
 
 
 def _run(ctx, task):
+    """One batch = everything one fresh process executes: a list of programs run one after the other (module-level state of the
+    library survives from one program to the next; the base objects are rebuilt for each)."""
     m = ctx["m"]
-    scen = X.Scenario(m, 0)          # rebuilt per program: stateful base objects start fresh
-    rec = X.run_program(m, scen, ctx["adp"], task["prog"])
-    rec["tid"] = task["tid"]
-    return rec
+    steps = []
+    for pi, prog in enumerate(task["progs"]):
+        scen = X.Scenario(m, 0)
+        rec = X.run_program(m, scen, ctx["adp"], prog)
+        steps.append(dict(kind="reset", prog=pi))
+        for s_ in rec["steps"]:
+            s_["kind"] = "call"
+            s_["prog"] = pi
+            steps.append(s_)
+    return dict(tid=task["tid"], steps=steps)
 
 
 def validate(records):
@@ -41,7 +49,7 @@ def validate(records):
         with open(path, "w") as f:
             for r in records:
                 f.write(json.dumps(r) + "\n")
-        tr = tlc.run_tlc("ApiTrace", dict(spec="TraceSpec", constants=dict(MaxCalls=20, Mode="sim"), invariants=["Frame", "FormFree", "Typed"]),
+        tr = tlc.run_tlc("ApiTrace", dict(spec="TraceSpec", constants=dict(MaxCalls=50, Mode="sim"), invariants=["Frame", "FormFree", "Typed"]),
                          workers=1, env={"TRACE_FILE": path}, timeout=3600, heap="8g")
         out = {}
         for line in tr.prints:
@@ -117,36 +125,62 @@ def check(rep, pid, tier, seed):
             sims.append(parse_prog(tr[-1][1]["prog"]))
     allp = d1 + d2 + pick3 + sims
     rep.extra["program_counts"] = dict(depth1=len(d1), repeat=len(d2), pattern3=len(pick3), pattern3_enumerated=len(d3), simulated=len(sims))
-    tasks = [dict(prog=p, tid=i + 1) for i, p in enumerate(allp)]
+    # deterministic batches, each executed by a fresh process in a seeded order
+    order = list(rng.permutation(len(allp)))
+    nb = 16
+    batches = [[allp[i] for i in order[b::nb]] for b in range(nb)]
+    tasks = [dict(progs=bt, tid=b + 1) for b, bt in enumerate(batches) if bt]
     records = [None] * len(tasks)
-    for k, status, out in pool.run_tasks(_run, tasks, init=_init, task_timeout=600):
+    for k, status, out in pool.run_tasks(_run, tasks, init=_init, procs=len(tasks), task_timeout=3000):
         if status == "done":
             records[k] = out
         else:
-            rep.machinery("program %d %s: %s" % (k + 1, status, str(out)[:400]))
+            rep.machinery("batch %d %s: %s" % (k + 1, status, str(out)[:400]))
     good = [r for r in records if r is not None]
     verdicts, trr = validate(good)
-    rep.add_tlc("ApiTrace[%d programs]" % len(good), trr, note="trace validation")
+    rep.add_tlc("ApiTrace[%d processes, %d programs]" % (len(good), len(allp)), trr, note="trace validation")
     callables_hit = set()
+    global_memo = {}
     for rec in good:
-        rep.traces += 1
-        rep.evaluations += len(rec["steps"])
-        rep.nontrivial.add(json.dumps([[s["f"], s["forms"], s["args"]] for s in rec["steps"]]))
+        progs_of = {}
         for s in rec["steps"]:
-            callables_hit.add(s["name"])
-            if s["exc"]:
-                rep.extra.setdefault("calls_that_raised", {}).setdefault(s["name"], 0)
-                rep.extra["calls_that_raised"][s["name"]] += 1
+            if s["kind"] == "call":
+                progs_of.setdefault(s["prog"], []).append(s)
+        for pi, steps in progs_of.items():
+            rep.traces += 1
+            rep.evaluations += len(steps)
+            rep.nontrivial.add(json.dumps([[s["f"], s["forms"], s["args"]] for s in steps]))
+            for s in steps:
+                callables_hit.add(s["name"])
+                if s["exc"]:
+                    rep.extra.setdefault("calls_that_raised", {}).setdefault(s["name"], 0)
+                    rep.extra["calls_that_raised"][s["name"]] += 1
+                # equal inputs (bit for bit) and equal seed => bit-identical results, across processes and call histories
+                if not s["exc"]:
+                    key = (s["f"], tuple(s["forms"]), s["seed"], tuple(s["pool_before"]))
+                    prev = global_memo.setdefault(key, (s["res"], rec["tid"], pi))
+                    if prev[0] != s["res"]:
+                        plain = lambda st: [dict(f=x["f"], args=x["args"], forms=x["forms"], seed=x["seed"]) for x in st]
+                        other = [r_ for r_ in good if r_["tid"] == prev[1]][0]
+                        other_progs = {}
+                        for x in other["steps"]:
+                            if x["kind"] == "call":
+                                other_progs.setdefault(x["prog"], []).append(x)
+                        rep.violation("C19 %s: equal inputs (bit for bit) and equal seed gave different results in two processes with different call histories "
+                                      "(process %d vs %d)" % (s["name"], prev[1], rec["tid"]),
+                                      dict(kind="crossproc", a=[plain(other_progs[q]) for q in sorted(other_progs) if q <= prev[2]],
+                                           b=[plain(progs_of[q]) for q in sorted(progs_of) if q <= pi]),
+                                      key="%s|crossproc" % s["name"])
         bad = verdicts.get(rec["tid"])
         if bad is None:
-            rep.machinery("program %d got no verdict from ApiTrace" % rec["tid"])
+            rep.machinery("process %d got no verdict from ApiTrace" % rec["tid"])
             continue
-        for clause, l in bad[:2]:
+        for clause, l in bad[:6]:
             s = rec["steps"][l - 1]
-            rep.violation("C19 %s(%s): clause %s fails at call %d of program %s%s%s" % (
-                s["name"], ", ".join("%s:%s" % (a[0] if a[0] != "r" else "result", f) for a, f in zip(s["args"], s["forms"])), clause, l,
-                [x["name"] for x in rec["steps"]], "; " + s["exc"] if s["exc"] else "", "; " + s["detail"] if s["detail"] else ""),
-                dict(kind="program", prog=[dict(f=x["f"], args=x["args"], forms=x["forms"], seed=x["seed"]) for x in rec["steps"]]),
+            rep.violation("C19 %s(%s): clause %s fails at call %s%s%s" % (
+                s["name"], ", ".join("%s:%s" % (a[0] if a[0] != "r" else "result", f) for a, f in zip(s["args"], s["forms"])), clause,
+                [x["name"] for x in progs_of[s["prog"]]], "; " + s["exc"] if s["exc"] else "", "; " + s["detail"] if s["detail"] else ""),
+                dict(kind="batch", progs=[[dict(f=x["f"], args=x["args"], forms=x["forms"], seed=x["seed"]) for x in progs_of[q]] for q in sorted(progs_of) if q <= s["prog"]]),
                 key="%s|%s" % (s["name"], clause))
     rep.extra["callables_exercised"] = len(callables_hit)
     rep.extra["callables_in_table"] = len(R.TABLE)
@@ -154,16 +188,33 @@ def check(rep, pid, tier, seed):
     if missing:
         rep.vacuity.append("table entries never executed: %s" % missing)
     if good:
-        rep.sample(dict(leg="R", program=[dict(name=s["name"], args=s["args"], forms=s["forms"], res=s["res"]) for s in good[len(d1) + 3]["steps"]] if len(good) > len(d1) + 3 else None))
-        rep.sample(dict(leg="R", program=[dict(name=s["name"], args=s["args"], forms=s["forms"], res=s["res"]) for s in good[-1]["steps"]]))
+        calls = [x for x in good[0]["steps"] if x["kind"] == "call"]
+        rep.sample(dict(leg="R", first_calls_of_process_1=[dict(name=x["name"], args=x["args"], forms=x["forms"], res=x["res"]) for x in calls[:6]]))
     rep.rule = ("cases = API programs generated by TLC (every callable x form combination; f;f; f;g;f with a shared argument; simulated data-flow chains) "
                 "executed on the real library; distinct = distinct (callable, forms, arguments) sequence; non-trivial = all (each program checks purity of every "
                 "argument, and programs of length >= 2 check determinism / hidden state)")
 
 
 def replay(rep, pid, case):
+    if case.get("kind") == "crossproc":
+        tasks = [dict(progs=case["a"], tid=1), dict(progs=case["b"], tid=2)]
+        recs = {}
+        for k, status, out in pool.run_tasks(_run, tasks, init=_init, procs=2, task_timeout=3000):
+            if status == "done":
+                recs[k] = out
+        memo = {}
+        rep.traces += 2
+        for k in sorted(recs):
+            for s in recs[k]["steps"]:
+                if s["kind"] == "call" and not s["exc"]:
+                    key = (s["f"], tuple(s["forms"]), s["seed"], tuple(s["pool_before"]))
+                    if memo.setdefault(key, s["res"]) != s["res"]:
+                        rep.violation("C19 %s: equal inputs and equal seed gave different results in two processes with different call histories" % s["name"], case)
+                        return
+        return
     ctx = _init()
-    rec = _run(ctx, dict(prog=case["prog"], tid=1))
+    progs = case["progs"] if "progs" in case else [case["prog"]]
+    rec = _run(ctx, dict(progs=progs, tid=1))
     verdicts, _ = validate([rec])
     rep.traces += 1
     for clause, l in verdicts.get(1, []):
